@@ -15,7 +15,7 @@ import re
 
 from ..core.tree import AnalysisError
 from ..core.constfold import Folder
-from ..core.astutil import walk_no_nested, call_name, short, src
+from ..core.astutil import walk_no_nested, call_name, short, src, closure_src, closure_nodes, resolve_local
 from ..engines import regexlang as R
 from ..engines.regexuse import regex_uses
 from ..spec import hazards as H
@@ -225,10 +225,14 @@ def webvtt_tags(ctx, report, folder):
     report.check(w3 is None, "R-LANG-EQ", where, "VOICE_SPAN_PATTERN == '<v' ('.' class)* ' ' annotation '>'",
                  {"witness": w3} if w3 else None, "3")
     dec = ctx.index.get_function(VTT, "WebVTTReader._decode")
-    subs = [src(n) for n in walk_no_nested(dec.node) if isinstance(n, ast.Call) and isinstance(n.func, ast.Attribute)
+    subs = [n for n in walk_no_nested(dec.node) if isinstance(n, ast.Call) and isinstance(n.func, ast.Attribute)
             and n.func.attr == "sub"]
-    ok = subs[:2] == ["VOICE_SPAN_PATTERN.sub('\\\\2: ', s)", "OTHER_SPAN_PATTERN.sub('', s)"]
-    report.check(ok, "R-ORDER", dec, "voice spans become 'Name: ' before the remaining tags are stripped", subs, "3")
+    if len(subs) < 2:
+        raise AnalysisError(f"WebVTTReader._decode: expected two pattern substitutions, found {len(subs)}")
+    # (pattern constant, replacement) in application order; the name of the text variable is irrelevant
+    seq = [(src(n.func.value), src(n.args[0]) if n.args else None) for n in subs[:2]]
+    ok = seq == [("VOICE_SPAN_PATTERN", "'\\\\2: '"), ("OTHER_SPAN_PATTERN", "''")]
+    report.check(ok, "R-ORDER", dec, "voice spans become 'Name: ' before the remaining tags are stripped", [src(n) for n in subs], "3")
 
 
 def breaks(ctx, report):
@@ -240,11 +244,11 @@ def breaks(ctx, report):
                 found = any(isinstance(c, ast.Call) and (call_name(c) or "").endswith("create_break") for c in walk_no_nested(n))
         report.check(found, "R-COMPLETE-CASES", fn, "a br element becomes a BREAK node", None, "4")
     md = ctx.index.get_function("pycaption/microdvd.py", "MicroDVDReader.read")
-    t = src(md.node)
-    ok = "txt.split('|')" in t and "CaptionNode.create_break()" in t and "nodes.pop()" in t
+    t = closure_src(ctx.index, md)
+    ok = ".split('|')" in t and "create_break()" in t and ".pop()" in t
     report.check(ok, "R-COMPLETE-CASES", md, "'|' separates lines: one BREAK between pieces, none at the end", None, "4")
     for path, q in (("pycaption/srt.py", "SRTReader.read"), (VTT, "WebVTTReader._parse")):
         fn = ctx.index.get_function(path, q)
-        t = src(fn.node)
-        ok = "CaptionNode.create_break()" in t and "CaptionNode.create_text(" in t
+        t = closure_src(ctx.index, fn)
+        ok = "create_break()" in t and "create_text(" in t
         report.check(ok, "R-COMPLETE-CASES", fn, "consecutive text lines are separated by one BREAK node", None, "4")
